@@ -51,7 +51,15 @@
 //! inversion impossible; only assignments whose float evaluation is exact are claimed to survive propagation.
 //!
 //! Sensitivity probes: see PROBES at the end of this header (patches in crates/vf-prune/probes/).
-//! PROBES-PLACEHOLDER
+//! PROBES (env-guarded mutations `VF_PROBE=<name>` inside probes/all-fixes-plus-env-guarded-probes.diff, which also
+//! carries the eight candidate repairs; runner probes/run-all.sh; log probes/run-all-log.txt):
+//! * c23p1 — `mul_helper_zero_exclusive` (both positive) takes lhs.lower * rhs.upper as the upper bound (wrong corner)
+//! * c23p2 — `satisfy_greater` strict case advances the new lower bound by two (off by one)
+//! * c23p3 — `Interval::gt` decides certainly-FALSE on `self.lower <= rhs.lower`
+//! Verdicts (probes/run-all-log.txt): c23p1 -> VIOLATION after 286 cases (U8 [0,NULL] * [0,1] = [0,0] misses 1*1);
+//! c23p2 -> VIOLATION after 184 cases (update_ranges dropped a satisfying assignment); c23p3 -> VIOLATION after 14
+//! cases (evaluate_bounds = FALSE although the predicate is true). With the four candidate repairs applied the
+//! corresponding regression cases pass and `./check C23 quick` exits 0 (seeds 0, 1).
 use std::sync::Arc;
 
 use arrow::array::ArrayRef;
@@ -1106,7 +1114,7 @@ impl ExprResolver {
             E::Cmp { op, ty, l, r } => {
                 let op = EXPR_CMP[pick_index((*op as u16) << 8, EXPR_CMP.len())];
                 // mostly compare in the column type
-                let t = if *ty < 57344 { self.col_ty } else { EXPR_NT[pick_index(ty.wrapping_mul(4), EXPR_NT.len())] };
+                let t = if *ty < 57344 { self.col_ty } else { EXPR_NT[pick_index((*ty - 57344).wrapping_mul(8), EXPR_NT.len())] };
                 self.lab(&format!("expr:{op:?}"));
                 RE::Cmp(op, self.arith(l, t), self.arith(r, t))
             }
